@@ -71,7 +71,7 @@ def gen_cases(s, n):
 def run(tier):
     rep = Report("C14", tier)
     s = seed()
-    n = 800 if tier == "quick" else 20000
+    n = 800 if tier == "quick" else common.tscale(20000)
     K = 4 if tier == "quick" else 8
     cases = gen_cases(s, n)
     tcases = [{"id": c["id"], "src": c["units"][-1]["src"], "file": c["units"][-1]["file"], "dialect": "internal", "eval": False} for c in cases if len(c["units"]) == 1]
